@@ -19,7 +19,7 @@ build_rt() {
 
 if [ "${1:-}" = "replay" ]; then
     f="${2:?replay file}"
-    if grep -q '"engine": *"eqv-rt"' "$f" 2>/dev/null; then
+    if grep -q 'eqv-rt-replay' "$f" 2>/dev/null; then
         build_rt
         exec /verif/.cache/target-rt/release/eqv-rt replay "$f"
     fi
